@@ -91,17 +91,25 @@ func (s *sessions) update(h Header, n Handler) {
 func (s *sessions) delete(session SessionID) {
 	s.Lock()
 	defer s.Unlock()
-	sessionsActive.Dec()
-	if sc := s.known[session]; sc != nil {
-		sc.timer.ObserveDuration()
+	sc, ok := s.known[session]
+	if !ok {
+		// never counted as active, so there is nothing to take back
+		return
 	}
+	sessionsActive.Dec()
+	sc.timer.ObserveDuration()
 	delete(s.known, session)
 }
 
-// close will stop all prom timers, it's the only reason we have this
+// close will stop all prom timers and release the sessions that were still waiting for a
+// continuation when the connection went away
 func (s *sessions) close() {
-	for _, r := range s.known {
+	s.Lock()
+	defer s.Unlock()
+	for id, r := range s.known {
 		r.timer.ObserveDuration()
+		sessionsActive.Dec()
+		delete(s.known, id)
 	}
 }
 
